@@ -977,9 +977,28 @@ def run_parser(case) -> CaseResult:
             (target, len(data), type(exc).__name__, exc, site),
             'parser:%s:%s@%s' % (target, type(exc).__name__, site)) from None
     except Exception as exc:  # pylint: disable=broad-except
-        # other exception classes (e.g. UnicodeDecodeError from a text
-        # loader given bytes, ValueError from the crypto layer) are recorded
-        # by class; only the programming-error classes above are violations
+        # The import/decode functions document exactly one error family
+        # (KeyImportError / KeyEncryptionError, ASN1DecodeError, ...): their
+        # callers - e.g. the known_hosts and authorized_keys loaders, which
+        # skip a line on KeyImportError - catch only that.  Any other class
+        # coming out of asyncssh code is a violation for these targets.
+        # (verify() and the SFTP record decoders have no documented error
+        # contract beyond "not a programming error": recorded by class.)
+        import traceback
+        tb = traceback.extract_tb(exc.__traceback__)
+        where = [f for f in tb if '/asyncssh/' in f.filename]
+
+        if ok_exc and target not in ('sftp_attrs', 'sftp_name') and where:
+            site = '%s:%s' % (where[-1].filename.rsplit('/', 1)[-1],
+                              where[-1].name)
+            raise Violation(
+                'undocumented-exception', '%s(%d bytes) raised %s: %s at %s; '
+                'documented: %s' %
+                (target, len(data), type(exc).__name__, str(exc)[:200], site,
+                 '/'.join(c.__name__ for c in ok_exc)),
+                'parser:%s:%s@%s' % (target, type(exc).__name__, site)) \
+                from None
+
         labels.add('other-error:' + type(exc).__name__)
 
     if deep:
